@@ -345,6 +345,7 @@ func writeReplay(prop string, rf *ReplayFile) string {
 
 func check(prop, tier, only string, verbose bool) int {
 	t0 := time.Now()
+	os.Setenv("VERIF_TIER", tier) // native replays must see the same verifTier() as the symbolic run
 	seed, _ := strconv.ParseInt(os.Getenv("VERIF_SEED"), 10, 64)
 	spec, err := loadSpec(prop)
 	if err != nil {
